@@ -175,6 +175,18 @@ type Exec struct {
 	inInit    int
 	prov      map[*term.T]provRec
 	nFresh    int
+	// solver-stack reuse across consecutive paths of one worker (DFS alignment)
+	prevDecs  []int32
+	prevSigs  []uint64
+	prevValid bool
+	common    int
+	live      bool
+	sigs      []uint64
+	noReuse   bool
+	model     map[string]uint64
+	modelMemo map[*term.T]uint64
+	sibModels []map[string]uint64
+	startModel map[string]uint64
 }
 
 type mutexState struct {
@@ -236,7 +248,43 @@ func (ex *Exec) addPC(c *term.T) {
 		return
 	}
 	ex.pc = append(ex.pc, c)
-	ex.sol.Assert(c)
+	if ex.live {
+		ex.sol.Assert(c)
+	}
+	ex.tb.Assume(c)
+	if ex.model != nil {
+		if v, ok := term.Eval(c, ex.model, ex.modelMemo); !ok || v == 0 {
+			ex.model = nil
+		}
+	}
+}
+
+func sigOf(t *term.T) uint64 {
+	if t == nil {
+		return 1
+	}
+	return uint64(t.ID)*1000003 ^ uint64(t.Size())<<20 ^ uint64(t.Op)<<56
+}
+
+// enterDecision is called at decision index k before any solver operation: it
+// opens the solver scope of the decision, or - while the solver still holds the
+// scopes of the previous path's identical prefix - verifies alignment.
+func (ex *Exec) enterDecision(k int, cond *term.T) {
+	sg := sigOf(cond)
+	ex.sigs = append(ex.sigs, sg)
+	if !ex.live {
+		if k < ex.common {
+			if k < len(ex.prevSigs) && ex.prevSigs[k] != sg {
+				panic(pathAbort{"realign", "solver stack no longer matches the replayed prefix"})
+			}
+			return
+		}
+		ex.live = true
+	}
+	ex.sol.Push()
+	if cond != nil {
+		ex.sol.Assert(cond)
+	}
 }
 
 func (ex *Exec) site() string {
@@ -271,45 +319,114 @@ func (ex *Exec) decide(kind string, alts []*term.T) int {
 		if ch < 0 || ch >= len(alts) {
 			panic(pathAbort{"engine", fmt.Sprintf("replay divergence at decision %d (%s)", k, kind)})
 		}
+		ex.enterDecision(k, alts[ch])
 		ex.decisions = append(ex.decisions, int32(ch))
 		ex.forced = append(ex.forced, true)
-		ex.addPC(alts[ch])
+		ex.pc = append(ex.pc, alts[ch])
+		ex.tb.Assume(alts[ch])
 		return ch
 	}
-	// explore: find feasible alternatives
+	ex.live = ex.live || k >= ex.common
+	if ex.startModel != nil && k == len(ex.prefix) {
+		// the model found when this prefix was generated satisfies its whole path condition
+		ok := true
+		memo := map[*term.T]uint64{}
+		for _, c := range ex.pc {
+			if v, good := term.Eval(c, ex.startModel, memo); !good || v == 0 {
+				ok = false
+				break
+			}
+		}
+		if ok {
+			ex.model, ex.modelMemo = ex.startModel, memo
+		}
+		ex.startModel = nil
+	}
+	// explore: find feasible alternatives. The alternative satisfied by the cached
+	// model of the path condition is feasible without a query.
+	byModel := -1
+	if ex.model != nil {
+		for i, a := range alts {
+			if a.IsFalse() {
+				continue
+			}
+			if v, ok := term.Eval(a, ex.model, ex.modelMemo); ok && v != 0 {
+				byModel = i
+				break
+			}
+		}
+	}
 	var feas []int
+	var sibModels []map[string]uint64
 	for i, a := range alts {
 		if a.IsFalse() {
 			continue
 		}
-		if len(feas) == 0 && i == nonFalse {
+		if i == byModel {
+			feas = append(feas, i)
+			sibModels = append(sibModels, nil)
+			continue
+		}
+		if byModel < 0 && len(feas) == 0 && i == nonFalse {
 			// last candidate and none feasible so far: must be feasible (exhaustive)
 			feas = append(feas, i)
+			sibModels = append(sibModels, nil)
 			break
 		}
-		r := ex.sol.CheckWith(a)
+		ex.sol.Push()
+		ex.sol.Assert(a)
+		r := ex.sol.Check()
 		ex.nQueries++
+		var m map[string]uint64
+		if r == smt.Sat {
+			m, _ = ex.modelOfDraws()
+		}
+		ex.sol.Pop()
 		if r != smt.Unsat {
 			if r == smt.Unknown {
 				ex.unknownFeas++
 			}
 			feas = append(feas, i)
+			sibModels = append(sibModels, m)
 		}
 	}
 	if len(feas) == 0 {
 		panic(pathAbort{"assume", "infeasible path at " + kind})
 	}
-	ch := feas[0]
-	for _, o := range feas[1:] {
+	// follow the model's alternative when there is one (the model stays valid)
+	pick := 0
+	for j, f := range feas {
+		if f == byModel {
+			pick = j
+		}
+	}
+	ch := feas[pick]
+	for j, o := range feas {
+		if j == pick {
+			continue
+		}
 		sib := make([]int32, k+1)
 		copy(sib, ex.decisions)
 		sib[k] = int32(o)
 		ex.siblings = append(ex.siblings, sib)
+		ex.sibModels = append(ex.sibModels, sibModels[j])
 	}
+	if byModel < 0 {
+		ex.setModel(sibModels[pick])
+	}
+	ex.enterDecision(k, alts[ch])
 	ex.decisions = append(ex.decisions, int32(ch))
 	ex.forced = append(ex.forced, len(feas) == 1)
-	ex.addPC(alts[ch])
+	ex.pc = append(ex.pc, alts[ch])
+	ex.tb.Assume(alts[ch])
 	return ch
+}
+
+func (ex *Exec) setModel(m map[string]uint64) {
+	ex.model = m
+	if m != nil {
+		ex.modelMemo = map[*term.T]uint64{}
+	}
 }
 
 // branch decides a boolean condition.
@@ -319,6 +436,9 @@ func (ex *Exec) branch(c *term.T) bool {
 	}
 	if c.IsFalse() {
 		return false
+	}
+	if v, ok := ex.tb.Decided(c); ok {
+		return v
 	}
 	return ex.decide("branch", []*term.T{c, ex.tb.BNot(c)}) == 0
 }
@@ -331,15 +451,18 @@ func (ex *Exec) choice(n int) int {
 	k := len(ex.decisions)
 	if k < len(ex.prefix) {
 		ch := int(ex.prefix[k])
+		ex.enterDecision(k, nil)
 		ex.decisions = append(ex.decisions, int32(ch))
 		ex.forced = append(ex.forced, true)
 		return ch
 	}
+	ex.enterDecision(k, nil)
 	for o := 1; o < n; o++ {
 		sib := make([]int32, k+1)
 		copy(sib, ex.decisions)
 		sib[k] = int32(o)
 		ex.siblings = append(ex.siblings, sib)
+		ex.sibModels = append(ex.sibModels, ex.model)
 	}
 	ex.decisions = append(ex.decisions, 0)
 	ex.forced = append(ex.forced, false)
@@ -357,6 +480,13 @@ func (ex *Exec) concretize(t *term.T, what string) uint64 {
 	for iter := 0; iter < 1<<16; iter++ {
 		k := len(ex.decisions)
 		var v uint64
+		if !ex.live {
+			// values come from solver models: replay this part with a live solver
+			if k < ex.common {
+				panic(pathAbort{"realign", "concretize inside a retained prefix"})
+			}
+			ex.live = true
+		}
 		// obtain a candidate value deterministically: the solver's model under the PC
 		ex.sol.Push()
 		r := ex.sol.Check()
@@ -377,13 +507,18 @@ func (ex *Exec) concretize(t *term.T, what string) uint64 {
 		eq := tb.Eq(t, tb.Const(int(t.W), v))
 		if k < len(ex.prefix) {
 			ch := ex.prefix[k]
+			c := eq
+			if ch != 0 {
+				c = tb.BNot(eq)
+			}
+			ex.enterDecision(k, c)
 			ex.decisions = append(ex.decisions, ch)
 			ex.forced = append(ex.forced, true)
+			ex.pc = append(ex.pc, c)
+			ex.tb.Assume(c)
 			if ch == 0 {
-				ex.addPC(eq)
 				return v
 			}
-			ex.addPC(tb.BNot(eq))
 			continue
 		}
 		// is another value possible?
@@ -394,10 +529,13 @@ func (ex *Exec) concretize(t *term.T, what string) uint64 {
 			copy(sib, ex.decisions)
 			sib[k] = 1
 			ex.siblings = append(ex.siblings, sib)
+			ex.sibModels = append(ex.sibModels, nil)
 		}
+		ex.enterDecision(k, eq)
 		ex.decisions = append(ex.decisions, 0)
 		ex.forced = append(ex.forced, other == smt.Unsat)
-		ex.addPC(eq)
+		ex.pc = append(ex.pc, eq)
+		ex.tb.Assume(eq)
 		return v
 	}
 	panic(pathAbort{"budget", "concretize: too many values for " + what})
